@@ -5,7 +5,7 @@ are recorded as HFE v1, HFE v3 (opcode placements taken from the TLC cases, mapp
 MFM with varied gap / sync lengths, sector order and skew, one or two sides, and every command's output on the flux
 image is compared with the sector dump of the same disc; TraceFlux.tla judges the observations."""
 import os, json, random, shutil, re
-import common, mkdisc, mkflux, discs
+import readtrace, common, mkdisc, mkflux, discs
 
 
 def disc_image(k, spt, ntr, rnd, two_sided=False):
@@ -158,10 +158,19 @@ def run(chk, tier, seed):
                                     clean=1 if of.ok_alphabet() else 0, extra=extra or {}, err=of.err.decode("latin1")[:160]))
             return evs
 
+        rs_runs = []
+
         def do(job):
             tag = "i%d" % job[0]
             path, dumps, entss, params = make(job, tag)
             evs = compare(job, path, dumps, entss, tag, params)
+            # ReadStack.tla: the sectors as the bottom layer delivers them, flux against dump, sector by sector (same group)
+            if not job[5] and job[0] % (4 if quick else 1) == 0:
+                k, enc, ntr, spt, fmt, two = job
+                for ci, cmd in enumerate(commands(entss[0], spt, ntr, "0")[:6]):
+                    for which, p_ in (("flux", path), ("dump", dumps[0])):
+                        o, tev = readtrace.record([dfs, "--file", p_] + cmd, scratch, "%s-%d-%s" % (tag, ci, which), ctx=dict(group=tag))
+                        rs_runs.append(("%s %s %dx%d (%s): dfs %s (rc=%s)" % (fmt, enc, ntr, spt, which, " ".join(cmd), o.rc), tev))
             for p in [path] + dumps:
                 os.unlink(p)
             return evs
@@ -235,6 +244,10 @@ def run(chk, tier, seed):
                           "%s %s %dx%d side %d: `%s` differs from the sector dump (rc flux %s / dump %s, clean=%s) %s; params %s" %
                           (e["fmt"], e["enc"], e["ntr"], e["spt"], e["side"], " ".join(e["cmd"]), e["rc_flux"], e["rc_dump"], e["clean"], e["err"][:120],
                            json.dumps(e["extra"])[:300]), dict(event=e))
+        if rs_runs:
+            for desc, tev in rs_runs:
+                chk.case(("readstack", desc))
+            readtrace.validate(chk, rs_runs, scratch, "readstack")
         chk.extra["images"] = len(jobs) + len(pl_jobs)
 
 
